@@ -288,6 +288,17 @@ class C07(Check):
                 R.violation('move/input-modified', cdesc, 'input was a view of an earlier result')
             elif np.abs(np.asarray(r3)[(atom + 1) % n] - (before[(atom + 1) % n] + d)).max() > 1e-12:
                 R.violation('move/moved-atom-not-displaced-by-displ', cdesc, 'input was a view of an earlier result')
+            for k in list(info):
+                info[k] = [(j, ln * 1.25) for j, ln in info[k]]      # same dict object, new lengths
+            out = move_mol_atom(pos, info, atom, d.copy())
+            bad = [(a, b) for a, b in edges
+                   if abs(np.linalg.norm(out[a] - out[b]) - dict(info[a])[b]) > 1e-9 * dict(info[a])[b]]
+            R.case(cdesc, nontrivial=True, cls=f'table-edited-in-place/n{n}', outcome='second-move-after-table-edit')
+            if not np.all(np.isfinite(out)):
+                R.violation('move-after-table-edit/non-finite', cdesc, out.tolist())
+            elif bad:
+                R.violation('move-after-table-edit/bond-not-the-length-now-in-the-table', cdesc, str(bad[:3]))
+            # (after the table-edit history above, which needs the calls on ONE table object to be consecutive)
             # an ndarray SUBCLASS as input (a memory-mapped trajectory frame, a user's Positions class): not modified either
             sub = pos.copy().view(_Positions)
             before = np.array(sub, float).copy()
@@ -313,16 +324,6 @@ class C07(Check):
                     R.violation('move-after-raising-call/non-finite-or-shape', cdesc, f'{sorted(bad)}')
                 elif bad2 or np.abs(out2[a2] - (pos2[a2] + d)).max() > 1e-12:
                     R.violation('move-after-raising-call/bond-or-moved-atom-wrong', cdesc, f'{sorted(bad)}: {bad2[:3]}')
-            for k in list(info):
-                info[k] = [(j, ln * 1.25) for j, ln in info[k]]      # same dict object, new lengths
-            out = move_mol_atom(pos, info, atom, d.copy())
-            bad = [(a, b) for a, b in edges
-                   if abs(np.linalg.norm(out[a] - out[b]) - dict(info[a])[b]) > 1e-9 * dict(info[a])[b]]
-            R.case(cdesc, nontrivial=True, cls=f'table-edited-in-place/n{n}', outcome='second-move-after-table-edit')
-            if not np.all(np.isfinite(out)):
-                R.violation('move-after-table-edit/non-finite', cdesc, out.tolist())
-            elif bad:
-                R.violation('move-after-table-edit/bond-not-the-length-now-in-the-table', cdesc, str(bad[:3]))
 
     def _displ(self, case, R, pos, info, atom, fn):
         n = case['n']
